@@ -105,6 +105,7 @@ func (dr *DialogueRunner) Next(choice int) (*DialogueElement, error) {
 				statements: statements,
 			})
 		}
+		dr.lastStatement = nil
 	}
 
 	if dr.statementsToRun.Size() == 0 {
